@@ -182,8 +182,18 @@ class Run(object):
     def add_groups(self, groups, chunk=4000):
         """groups: [{gid, kind, def (tla shape), members:[{role, fin}], replay: {...}}] -> TLC Groups.tla"""
         from . import tlc
-        for k in range(0, len(groups), chunk):
-            part = groups[k:k + chunk]
+        # chunks are bounded by count and by serialised size (TLC's JSON reader fails on very large files)
+        parts, cur, size = [], [], 0
+        for g in groups:
+            n = len(json.dumps({x: g[x] for x in g if x != "replay"}, separators=(",", ":"), default=str))
+            if cur and (len(cur) >= chunk or size + n > 6000000):
+                parts.append(cur)
+                cur, size = [], 0
+            cur.append(g)
+            size += n
+        if cur:
+            parts.append(cur)
+        for part in parts:
             base = len(self.groups)
             for i, g in enumerate(part):
                 g["gid"] = base + i + 1
